@@ -114,7 +114,20 @@ func runFault(c *Ctx, caseNo int, in faultInput, srcDir string) ([]vt.Ev, *SyncR
 			conn.R.Faults = []hstream.Fault{{Op: "recv", K: in.K, Do: cancelR}}
 		}
 	}
+	if in.Kind == "openFailsWhenPipelineFull" {
+		// all opens are held back until the stream has gone quiet (every request the receiver can make is queued or
+		// waiting to be queued), then every one of them fails
+		ffs.HoldOpens = make(chan struct{})
+	}
 	o.SetupCallOnly = func(conn *hstream.Conn, cancelS, cancelR context.CancelFunc) {
+		if in.Kind == "openFailsWhenPipelineFull" {
+			go func() {
+				for time.Since(conn.LastActivity()) < 300*time.Millisecond {
+					time.Sleep(50 * time.Millisecond)
+				}
+				close(ffs.HoldOpens)
+			}()
+		}
 		if in.Kind == "R.cancelCall@readBlocked" || in.Kind == "S.cancelCall@readBlocked" {
 			// the source's reader is stuck mid-file; once everything else has drained, one call's context is
 			// cancelled (the stream does not notice), and a little later the reader is released
@@ -186,7 +199,7 @@ func faultScenarios(c *Ctx) []faultInput {
 	out := []faultInput{
 		{Scenario: "small/empty", Src: small, CapS: 1, CapR: 1},
 		{Scenario: "small/dirty", Src: small, Dst: dirty, CapS: 0, CapR: 0},
-		{Scenario: "fanout300/slowdata", Src: fan, CapS: 32, CapR: 64, SlowData: 600},
+		{Scenario: "fanout300/slowdata", Src: fan, CapS: 32, CapR: 64, SlowData: 1000},
 		{Scenario: "dirfirst320/slowcallback", Src: dirFirst, CapS: 64, CapR: 64, CbDelayMS: 400, OnlyKinds: []string{"notify", "hasher"}},
 	}
 	if c.Thorough() {
@@ -274,6 +287,7 @@ func Faults(c *Ctx) error {
 			{"S.cancelCall@send", cnt.SSend}, {"R.cancelCall@recv", cnt.RRecv}, {"R.cancelCall@send", cnt.RSend},
 			{"walk", cnt.Walks}, {"open", cnt.Opens}, {"read", cnt.Opens}, {"hasher", cnt.Hasher}, {"notify", cnt.Notify},
 			{"R.cancelCall@readBlocked", cnt.Opens}, {"S.cancelCall@readBlocked", cnt.Opens},
+			{"openFailsWhenPipelineFull", 1},
 		}
 		// SIGKILL of the receiving process at the sender's k-th SendMsg
 		if len(sc.OnlyKinds) == 0 && sc.SlowData == 0 {
